@@ -24,6 +24,14 @@
 (*         context.variable.name := s                                      *)
 (*   cnt   lena.flow.Count(s) inside a Sequence: the last value of every   *)
 (*         run gets context[s] := running count                            *)
+(*   vart  Variable(s, getter, type="coordinate", unit="cm"): new data     *)
+(*         object, context.variable := a copy of the element's var_context *)
+(*         [name, type, unit, coordinate |-> [name, unit]] - a dictionary  *)
+(*         with a sub-dictionary (depth 2)                                 *)
+(*   setv  UpdateContext("variable.coordinate.unit", s): a write BELOW     *)
+(*         context.variable                                                *)
+(* The list cell of a value stands for any mutable data object (a list, a  *)
+(* user object with attributes, the first member of a tuple of objects).   *)
 (* Each exists twice: H.. on the heap (operational) and P.. on pure values *)
 (* (declarative).                                                          *)
 (***************************************************************************)
@@ -44,6 +52,11 @@ MakeFn(s) == Mut("setn", "output", "filename", 0, s, TRUE)
 Var(s, x) == Mut("var", "variable", "name", x, s, FALSE)
 Cnt(s) == Mut("cnt", "", s, 0, "", FALSE)
 LApp(x) == Mut("lapp", "", ListKey, x, "", FALSE)      \* user element: context["l"].append(x) (created if absent)
+SubKey == "coordinate"    \* the key of a nested dictionary that holds a dictionary itself (a typed Variable)
+VarT(s, x) == Mut("vart", "variable", "name", x, s, FALSE)
+SetV(s) == Mut("setv", "variable", "unit", 0, s, FALSE)
+VarSub(s) == [name |-> s, unit |-> "cm"]
+VarCtx(s) == [name |-> s, type |-> SubKey, unit |-> "cm", coordinate |-> VarSub(s)]
 \* what a nested write stores: MakeFilename and Variable store strings, UpdateContext ints
 Stored(mu) == IF mu.s = "" THEN mu.x ELSE mu.s
 
@@ -56,12 +69,19 @@ EmptyHeap == [h |-> <<>>, n |-> 1]
 \* the new object gets id M.n
 NewCell(M, cell) == [h |-> [i \in 1..M.n |-> IF i = M.n THEN cell ELSE M.h[i]], n |-> M.n + 1]
 
+\* a nested dictionary d: its sub-dictionary (if any) is an object of its own
+AllocDict(M, d) ==
+  IF SubKey \in DOMAIN d
+  THEN LET M1 == NewCell(M, DCell(d[SubKey])) IN
+       [M |-> NewCell(M1, DCell([d EXCEPT ![SubKey] = [ref |-> M.n]])), id |-> M1.n]
+  ELSE [M |-> NewCell(M, DCell(d)), id |-> M.n]
+SnapDict(h, id) == LET d == h[id].m IN [k \in DOMAIN d |-> IF k = SubKey THEN h[d[k].ref].m ELSE d[k]]
 RECURSIVE AllocNested(_, _, _, _)
 AllocNested(M, c, j, m) ==
   IF j > Len(NKSeq) THEN [M |-> M, m |-> m]
   ELSE LET nk == NKSeq[j] IN
        IF nk \in DOMAIN c
-       THEN AllocNested(NewCell(M, DCell(c[nk])), c, j + 1, [m EXCEPT ![nk] = [ref |-> M.n]])
+       THEN LET r == AllocDict(M, c[nk]) IN AllocNested(r.M, c, j + 1, [m EXCEPT ![nk] = [ref |-> r.id]])
        ELSE AllocNested(M, c, j + 1, m)
 AllocCtx(M, c) == LET r0 == AllocNested(M, c, 1, c)
                       r == IF ListKey \in DOMAIN c
@@ -72,7 +92,7 @@ AllocVal(M, x) == LET M1 == NewCell(M, LCell(x.d))
                       r == AllocCtx(M1, x.c)
                   IN [M |-> r.M, v |-> [d |-> M.n, c |-> r.id]]
 SnapCtx(h, id) == LET m == h[id].m IN
-                  [key \in DOMAIN m |-> IF key \in NestedKeys THEN h[m[key].ref].m
+                  [key \in DOMAIN m |-> IF key \in NestedKeys THEN SnapDict(h, m[key].ref)
                                         ELSE IF key = ListKey THEN h[m[key].ref].v ELSE m[key]]
 SnapVal(h, v) == [d |-> h[v.d].v, c |-> SnapCtx(h, v.c)]
 DeepCopyVal(M, v) == AllocVal(M, SnapVal(M.h, v))
@@ -81,7 +101,9 @@ DeepCopyCtx(M, id) == AllocCtx(M, SnapCtx(M.h, id))
 ShallowCopyVal(M, v) == LET M1 == NewCell(M, LCell(M.h[v.d].v))
                             M2 == NewCell(M1, DCell(M.h[v.c].m))
                         IN [M |-> M2, v |-> [d |-> M.n, c |-> M1.n]]
+SubRefs(h, id) == IF SubKey \in DOMAIN h[id].m THEN {h[id].m[SubKey].ref} ELSE {}
 ReachCtx(h, id) == {id} \cup {h[id].m[k].ref : k \in RefKeys \cap DOMAIN h[id].m}
+                        \cup UNION {SubRefs(h, h[id].m[k].ref) : k \in NestedKeys \cap DOMAIN h[id].m}
 Reach(h, v) == {v.d} \cup ReachCtx(h, v.c)
 
 \* copy.deepcopy of a list of values
@@ -117,8 +139,31 @@ HListApp(M, cid, x) ==
   LET m == M.h[cid].m IN
   IF ListKey \in DOMAIN m THEN [M EXCEPT !.h[m[ListKey].ref].v = Append(@, x)]
   ELSE LET M2 == NewCell(M, LCell(<<x>>)) IN [M2 EXCEPT !.h[cid].m = Put(@, ListKey, [ref |-> M.n])]
-HApply(M, v, mu) ==
-  CASE mu.t = "lapp" -> [M |-> HListApp(M, v.c, mu.x), v |-> v]
+\* UpdateContext("variable.coordinate.<key>", s): the dictionaries on the path are created if absent
+HSetSub(M, cid, mu) ==
+  LET m == M.h[cid].m IN
+  IF "variable" \notin DOMAIN m
+  THEN LET M1 == NewCell(M, DCell(Put(<<>>, mu.key, Stored(mu))))
+           M2 == NewCell(M1, DCell(Put(<<>>, SubKey, [ref |-> M.n])))
+       IN [M2 EXCEPT !.h[cid].m = Put(@, "variable", [ref |-> M1.n])]
+  ELSE LET nid == m["variable"].ref IN
+       IF SubKey \notin DOMAIN M.h[nid].m
+       THEN LET M1 == NewCell(M, DCell(Put(<<>>, mu.key, Stored(mu)))) IN
+            [M1 EXCEPT !.h[nid].m = Put(@, SubKey, [ref |-> M.n])]
+       ELSE [M EXCEPT !.h[M.h[nid].m[SubKey].ref].m = Put(@, mu.key, Stored(mu))]
+\* a typed Variable: new data object; context.variable := a NEW dictionary with the attributes of the element.
+\* es = 0: a deep copy of the element's var_context (the code); es > 0: what if the copy were shallow - the
+\* sub-dictionary put into the context is the element's own object (heap id es), shared by every value that
+\* passes this element
+HVarT(M, v, mu, es) ==
+  LET M1 == NewCell(M, LCell(Append(M.h[v.d].v, mu.x)))
+      sub == IF es > 0 THEN [M |-> M1, id |-> es] ELSE [M |-> NewCell(M1, DCell(VarSub(mu.s))), id |-> M1.n]
+      M3 == NewCell(sub.M, DCell([name |-> mu.s, type |-> SubKey, unit |-> "cm", coordinate |-> [ref |-> sub.id]]))
+  IN [M |-> [M3 EXCEPT !.h[v.c].m = Put(@, "variable", [ref |-> sub.M.n])], v |-> [d |-> M.n, c |-> v.c]]
+HApplyS(M, v, mu, es) ==
+  CASE mu.t = "setv" -> [M |-> HSetSub(M, v.c, mu), v |-> v]
+    [] mu.t = "vart" -> HVarT(M, v, mu, es)
+    [] mu.t = "lapp" -> [M |-> HListApp(M, v.c, mu.x), v |-> v]
     [] mu.t = "inc" -> LET m == M.h[v.c].m IN
                        [M |-> HSetKey(M, v.c, mu.key, (IF mu.key \in DOMAIN m THEN m[mu.key] ELSE 0) + 1), v |-> v]
     [] mu.t = "app" -> [M |-> [M EXCEPT !.h[v.d].v = Append(@, mu.x)], v |-> v]
@@ -127,9 +172,11 @@ HApply(M, v, mu) ==
     [] mu.t = "var" -> LET M2 == NewCell(M, LCell(Append(M.h[v.d].v, mu.x)))      \* getter builds a new list
                        IN [M |-> HSetNested(M2, v.c, mu), v |-> [d |-> M.n, c |-> v.c]]
     [] mu.t = "cnt" -> [M |-> M, v |-> v]
-RECURSIVE HApplyAll(_, _, _)
-HApplyAll(M, v, mus) == IF mus = <<>> THEN [M |-> M, v |-> v]
-                        ELSE LET r == HApply(M, v, Head(mus)) IN HApplyAll(r.M, r.v, Tail(mus))
+HApply(M, v, mu) == HApplyS(M, v, mu, 0)
+RECURSIVE HApplyAllS(_, _, _, _)
+HApplyAllS(M, v, mus, es) == IF mus = <<>> THEN [M |-> M, v |-> v]
+                             ELSE LET r == HApplyS(M, v, Head(mus), es) IN HApplyAllS(r.M, r.v, Tail(mus), es)
+HApplyAll(M, v, mus) == HApplyAllS(M, v, mus, 0)
 
 (***************************************************************************)
 (* The same mutators on pure values.                                       *)
@@ -139,8 +186,14 @@ PSetNested(c, mu) ==
   THEN IF mu.ia /\ mu.key \in DOMAIN c[mu.nk] THEN c
        ELSE Put(c, mu.nk, Put(c[mu.nk], mu.key, Stored(mu)))
   ELSE Put(c, mu.nk, Put(<<>>, mu.key, Stored(mu)))
+PSetSub(c, mu) ==
+  LET var == IF "variable" \in DOMAIN c THEN c["variable"] ELSE <<>>
+      sub == IF SubKey \in DOMAIN var THEN var[SubKey] ELSE <<>>
+  IN Put(c, "variable", Put(var, SubKey, Put(sub, mu.key, Stored(mu))))
 PApply(x, mu) ==
-  CASE mu.t = "lapp" -> [x EXCEPT !.c = Put(@, ListKey, Append((IF ListKey \in DOMAIN x.c THEN x.c[ListKey] ELSE <<>>), mu.x))]
+  CASE mu.t = "setv" -> [x EXCEPT !.c = PSetSub(@, mu)]
+    [] mu.t = "vart" -> [d |-> Append(x.d, mu.x), c |-> Put(x.c, "variable", VarCtx(mu.s))]
+    [] mu.t = "lapp" -> [x EXCEPT !.c = Put(@, ListKey, Append((IF ListKey \in DOMAIN x.c THEN x.c[ListKey] ELSE <<>>), mu.x))]
     [] mu.t = "inc" -> [x EXCEPT !.c = Put(@, mu.key, (IF mu.key \in DOMAIN x.c THEN x.c[mu.key] ELSE 0) + 1)]
     [] mu.t = "app" -> [x EXCEPT !.d = Append(@, mu.x)]
     [] mu.t = "set" -> [x EXCEPT !.c = Put(@, mu.key, mu.x)]
